@@ -43,7 +43,9 @@ NEED = ["get/hit", "get/miss", "goi/hit", "goi/inserted", "goi/err_full", "goi/e
         "unpin/ok", "clear/ok", "evict_all/ok", "removes:goi", "removes:clear", "removes:evict_all",
         "fine:goi/-", "fine:goi_slow/hit", "fine:goi_slow/inserted", "fine:goi_slow/err_full", "fine:clear_len/-", "fine:clear_shard/-",
         "fine:clear_release/ok", "fine:removes:goi_slow", "fine:removes:clear_shard",
-        "dev:clear_dropped_pinned", "dev:init_error_leak", "dev:clear_stale_len", "dev:evicted_live_ref", "dev:stale_unpin_hit_other_entry"]
+        "dev:clear_dropped_pinned", "dev:evicted_live_ref", "dev:stale_unpin_hit_other_entry"]
+# (dev:init_error_leak and dev:clear_stale_len were repaired in /repo - a0d35e6, 0678969 - and the generating configs now
+#  run with ReleaseOnInitError / ClearCountsUnderLock = TRUE, so those deviations are no longer generated)
 
 
 def tlc_to_file(cfg_path, outfile, workers=3, timeout=1500, coverage=False):
@@ -197,11 +199,11 @@ def judge_stress(chk, path):
         chk.violation("stress:WithinCapacity:len_over_capacity", rep)
     if st["len_after_clear"] != 0:
         chk.violation("stress:clear_leaves_entries", rep)
-    leak = st["used_bytes_after_clear"] - st["failed_inits"] * st["page"]
+    # (the init-error leak was repaired in /repo, a0d35e6: failed inits must not leave anything behind any more)
+    leak = st["used_bytes_after_clear"]
     if leak != 0:
-        chk.violation("stress:BudgetZeroWhenEmpty:unexplained_%+d_bytes" % leak, rep)
-    elif st["failed_inits"] > 0:
-        chk.classify("BudgetMatches:init_error_leak", rep)
+        what = "init_error_leak_is_back" if leak == st["failed_inits"] * st["page"] else "unexplained_%+d_bytes" % leak
+        chk.violation("stress:BudgetZeroWhenEmpty:" + what, rep)
     if calls < 1000:
         raise vlib.ToolError("stress made only %d calls" % calls)
     out = {"stress_calls": calls, "stress_failed_inits": st["failed_inits"], "stress_max_len": st["max_len_seen"]}
